@@ -129,13 +129,14 @@ class SCSIDevice(metaclass=ExMETA):
             # will not set return_sense_data=True until i test most of the ata command set.
             sgio.execute(self._file, cmd.cdb, cmd.dataout, cmd.datain)
         except sgio.CheckConditionError as error:
-            self.CheckCondition(error.sense)
             # For ata-passthrough, mostly the scsi command return no real error, here
             # save the raw sense data to command.raw_sense_data for upper level use.
             # If you execute the other scsi commands with en_raw_sense=True, this will
             # be a coppy of error.sense
             if en_raw_sense:
                 cmd.raw_sense_data = error.sense
+            else:
+                raise self.CheckCondition(error.sense)
 
     @property
     def opcodes(self):
